@@ -239,6 +239,40 @@ def run(ctx):
         pass
     ctx.check(uses_escape and joins == {"."}, "C12.escape", "C12.escape:join", w.where(ff), bad_msg=f"nested keys: escape_key used={uses_escape}, join literals={sorted(joins)}")
 
+    ctx.rule("C12.flatten", "FlattenedJsonValue::from_json_value: null/bool/string keep their value, an integer is kept or the property is absent, and an array "
+                            "is ALWAYS kept (elements that are not scalars are dropped one by one, never the array: `event_property_contains` must still see the scalars); "
+                            "ScalarJsonValue::try_from_json_value maps null/bool/string/integer to themselves")
+    for fname, arg_ok, none in ((PU + "condition::flattened_json::FlattenedJsonValue::from_json_value", "Option::Some(FlattenedJsonValue::", "Option::None"),
+                                (PU + "condition::flattened_json::ScalarJsonValue::try_from_json_value", "Result::Ok(ScalarJsonValue::", "Result::Err(")):
+        fj = w.fn(fname)
+        short = fname.rsplit("::", 2)[-2]
+        try:
+            ps = D.Dex(w.lookup, adt_discr=w.adt_discr, unroll=1).paths(fj, [D.sym("val")])
+        except D.Unrecognised as e:
+            ctx.unrecognised("C12.flatten", f"C12.flatten:{short}", w.where(fj), str(e))
+            continue
+        rets = [(p, D.show(p.ret) if p.ret is not None else "") for p in ps if p.kind == "ret"]
+        mention = lambda p, r, what: what in r or any(what in D.show_atom(a) for a, t in p.conds)
+        for var, payload in (("Bool", "val.Bool.0"), ("String", "val.String.0")):
+            got = sorted({r for p, r in rets if mention(p, r, f"val.{var}")})
+            ctx.check(got == [f"{arg_ok}{var}({payload}))"], "C12.flatten", f"C12.flatten:{short}:{var}", w.where(fj), bad_msg=f"a JSON {var.lower()} becomes {got}")
+        nullp = sorted({r for p, r in rets if r.endswith("::Null)")})
+        ctx.check(nullp == [f"{arg_ok}Null)"], "C12.flatten", f"C12.flatten:{short}:Null", w.where(fj), bad_msg=f"JSON null becomes {nullp}")
+        nump = sorted({r[:60] for p, r in rets if mention(p, r, "val.Number")})
+        ctx.check(any(r.startswith(f"{arg_ok}Integer(") for r in nump) and all(r.startswith(f"{arg_ok}Integer(") or r.startswith(none) for r in nump), "C12.flatten",
+                  f"C12.flatten:{short}:Number", w.where(fj), bad_msg=f"a JSON number becomes {nump}")
+        if short == "FlattenedJsonValue":
+            arr = [(p, r) for p, r in rets if mention(p, r, "val.Array")]
+            lost = [r for p, r in arr if not r.startswith(f"{arg_ok}Array(")]
+            ctx.check(bool(arr) and not lost, "C12.flatten", "C12.flatten:FlattenedJsonValue:Array", w.where(fj),
+                      bad_msg=f"a JSON array can flatten to {sorted(set(lost))[:2]}: the whole array disappears from the flattened event (array-contains conditions "
+                              f"can no longer see its scalar elements) instead of losing only the elements that are not scalars")
+            # the elements go through the scalar conversion
+            family = [fj] + [g for g in w.crates["ruma_common"].all_fns() if g["path"].startswith(fj["path"] + "::{closure") and "body" in g]
+            conv = [c for g in family for body in M.all_bodies(g) for _, c in M.calls(body) if M.callee_name(c).endswith("ScalarJsonValue::try_from_json_value")] or \
+                   [r for p, r in arr if "try_from_json_value" in r]
+            ctx.check(bool(conv), "C12.flatten", "C12.flatten:FlattenedJsonValue:Array:elements", w.where(fj), bad_msg="array elements are not converted with ScalarJsonValue::try_from_json_value")
+
     ctx.rule("C12.keys", "rules of one kind are identified by rule_id only: Hash / PartialEq / Equivalent<str> of the three rule types read nothing but rule_id")
     n = 0
     for ty in ("ConditionalPushRule", "PatternedPushRule", "SimplePushRule<T>"):
